@@ -280,6 +280,39 @@ def guard_gate(run):
             + ' '.join(l for l in out.split('\n') if 'error' in l.lower())[:400]]
 
 
+def keys_gate(run):
+    """C07 translator: the sort keys of candidates.py (harness/gen_keys.py), kernel-checked equal to the lists of lean/Props/C07Prog.lean."""
+    import gen_keys, subprocess, re
+    cov = run.coverage
+    try:
+        ks = gen_keys.keys(common.REPO)
+    except gen_keys.TranslationError as e:
+        cov['translator_keys'] = dict(status='refused', why=str(e))
+        return ['translator harness/gen_keys.py refused the source: %s' % e]
+    except Exception as e:
+        cov['translator_keys'] = dict(status='error', why='%s: %s' % (type(e).__name__, e))
+        return ['translator harness/gen_keys.py failed: %s: %s' % (type(e).__name__, e)]
+    gdir = os.path.join(common.LEAN, '.lake', 'gen')
+    os.makedirs(gdir, exist_ok=True)
+    path = os.path.join(gdir, 'Keys_%d.lean' % os.getpid())
+    open(path, 'w').write(gen_keys.lean_file(ks))
+    try:
+        r = subprocess.run(['lake', 'env', 'lean', path], cwd=common.LEAN, capture_output=True, text=True, timeout=600)
+        out = r.stdout + r.stderr
+    finally:
+        try: os.remove(path)
+        except OSError: pass
+    ok = r.returncode == 0 and 'error' not in out.lower()
+    axioms_ok = all(set(a.strip() for a in m.split(',') if a.strip()) <= common.STD_AXIOMS
+                    for m in re.findall(r"depends on axioms: \[([^\]]*)\]", out, flags=re.S))
+    cov['translator_keys'] = dict(status='checked' if ok and axioms_ok else 'mismatch', keys=ks,
+                                  obligation='Gen.byVoteKey / byBallotOrderKey / byTieOrderKey = C07.* by rfl; byVote_is_program, byBallotOrder_is_program, byTieOrder_is_program')
+    if ok and axioms_ok:
+        return []
+    return ['the sort keys of droop/candidates.py, translated, are no longer the lists lean/Props/C07Prog.lean proves the model comparators equal to: '
+            + ' '.join(l for l in out.split('\n') if 'error' in l.lower())[:300] + ' regenerated=%s' % (ks,)]
+
+
 def count_property(run, spec):
     t0 = time.time()
     broken = lean_gate(run, THEOREMS.get(run.prop, []))
@@ -535,7 +568,7 @@ def retie_line(item):
 
 @prop('C07')
 def C07(run):
-    spec = dict(rules=ALL, keys=['EXC', 'C07b', 'C07l', 'C07t', 'C07s'], proj=proj_C07, quick=5000, thorough=150000, extra_gate=guard_gate,
+    spec = dict(rules=ALL, keys=['EXC', 'C07b', 'C07l', 'C07t', 'C07s'], proj=proj_C07, quick=5000, thorough=150000, extra_gate=lambda run: guard_gate(run) + keys_gate(run),
                 families=['plain', 'symmetric', 'symmetric', 'sure_losers', 'on_quota', 'chains', 'few_supported', 'crossover', 'threeway'])
     count_property(run, spec)
     # when no tie is logged the record does not depend on the tie-break order (implementation vs implementation)
